@@ -105,16 +105,16 @@ type slot struct {
 	ln      int
 }
 
-// sweep refills with canary the client-made slots the server has released
-// (the server only edits the table; the bytes stay until someone overwrites them).
+// sweep forgets client-made slots the server has released (the table no longer
+// lists that exact region), so a later slot at the same offset is not
+// mistaken for one of the client's.
 func (c *cliSeg) sweep() {
-	live := map[uint64]bool{}
+	live := map[shmref.Entry]bool{}
 	for _, e := range c.m.Header().Entries {
-		live[e.Off] = true
+		live[e] = true
 	}
 	for off, sl := range c.mine {
-		if !live[off] {
-			c.m.FillRange(int(off), sl.ln)
+		if !live[shmref.Entry{Off: off, Len: uint64(sl.ln)}] {
 			delete(c.mine, off)
 		}
 	}
@@ -307,6 +307,7 @@ func (c *client) observe(b arrow.RecordBatch, call *obsCall) obsBatch {
 			call.Notes = append(call.Notes, "received a pointer batch but the client has no segment")
 			return obsBatch{Kind: "pointer-unresolvable", Meta: gen.CanonMeta(gen.MetaOf(b), nil)}
 		}
+		c.seg.sweep()
 		res, off, err := c.seg.resolve(b)
 		if err != nil {
 			call.Notes = append(call.Notes, "pointer not resolvable: "+err.Error())
@@ -326,18 +327,23 @@ func (c *client) observe(b arrow.RecordBatch, call *obsCall) obsBatch {
 type callSpec struct {
 	Method    string `json:"method"`
 	P         P      `json:"params"`
-	Advertise bool   `json:"advertise"`      // put segment name/size on the request
-	ReqPtr    bool   `json:"request_ptr"`    // ship the params batch through the segment
-	InPtr     bool   `json:"inputs_ptr"`     // ship exchange inputs through the segment
-	Turns     int    `json:"turns"`          // exchange: inputs to send; producer: ticks before the client stops (0 = until the server finishes)
-	InRows    int    `json:"input_rows"`     // exchange: rows per input
-	InLen     int    `json:"input_strlen"`   // exchange: string length per row
-	NewSeg    int    `json:"new_segment"`    // >0: switch to a fresh segment of this size before the call
-	RawPtr    string `json:"raw_pointer"`    // negative arm: "request" = send a pointer request although nothing is attached; "input" = pointer as exchange input
+	Advertise bool   `json:"advertise"`    // put segment name/size on the request
+	ReqPtr    bool   `json:"request_ptr"`  // ship the params batch through the segment
+	InPtr     bool   `json:"inputs_ptr"`   // ship exchange inputs through the segment
+	Turns     int    `json:"turns"`        // exchange: inputs to send; producer: ticks before the client stops (0 = until the server finishes)
+	InRows    int    `json:"input_rows"`   // exchange: rows per input
+	InLen     int    `json:"input_strlen"` // exchange: string length per row
+	NewSeg    int    `json:"new_segment"`  // >0: switch to a fresh segment of this size before the call
+	RawPtr    string `json:"raw_pointer"`  // negative arm: "request" = send a pointer request although nothing is attached; "input" = pointer as exchange input
 }
 
 func paramBatch(p P) arrow.RecordBatch {
-	bi := func(v int64) arrow.Array { b := array.NewInt64Builder(mem); defer b.Release(); b.Append(v); return b.NewArray() }
+	bi := func(v int64) arrow.Array {
+		b := array.NewInt64Builder(mem)
+		defer b.Release()
+		b.Append(v)
+		return b.NewArray()
+	}
 	sb := array.NewStringBuilder(mem)
 	sb.Append(p.Pad)
 	pad := sb.NewArray()
